@@ -34,6 +34,17 @@ def dt_now():
     return dt.datetime.now()
 
 
+def local_seconds_until(time_next, now):
+    """Return the seconds to wait from local time now until local time time_next.
+
+    If the start of daylight saving time lies between the two, the naive difference is an hour too long.
+    """
+    naive = (time_next - now).total_seconds()
+    if naive <= 0:
+        return naive
+    return min(naive, (dt_util.as_utc(time_next) - dt_util.as_utc(now)).total_seconds())
+
+
 def parse_time_offset(offset_str):
     """Parse a time offset."""
     match = re.split(r"([-+]?\s*\d*\.?\d+(?:[eE][-+]?\d+)?)\s*(\w*)", offset_str)
@@ -469,7 +480,7 @@ class TrigTime:
                     except asyncio.TimeoutError:
                         actual_now = dt_now()
                         if actual_now < time_next:
-                            this_timeout = (time_next - actual_now).total_seconds()
+                            this_timeout = local_seconds_until(time_next, actual_now)
                             # tests/tests_function's simple now() requires us to ignore
                             # timeouts that are up to 1us too early; otherwise wait for
                             # longer until we are sure we are at or past time_next
@@ -1203,7 +1214,7 @@ class TrigInfo:
                             except asyncio.TimeoutError:
                                 actual_now = dt_now()
                                 if actual_now < time_next:
-                                    timeout = (time_next - actual_now).total_seconds()
+                                    timeout = local_seconds_until(time_next, actual_now)
                                     continue
                                 now = time_next
                                 if not state_trig_timeout:
